@@ -72,6 +72,7 @@ def gen_wl(rng, force=None):
         "input": w["fasta"] if fasta else w["tpf"],
         "pretext": w["pretext_agp"],
         "prefix": rng.choice(["SUPER_", "SUPER_", "chr"]),
+        "log_level": rng.choice(["INFO", "INFO", "DEBUG", "WARNING"]),
     }
 
 
@@ -174,6 +175,8 @@ class Ctx:
             args += ["--log-level", "DEBUG"]
         if wl.get("prefix") and wl["prefix"] != "SUPER_":
             args += ["-c", wl["prefix"]]
+        if wl.get("log_level", "INFO") != "INFO" and mode != "debug":
+            args += ["--log-level", wl["log_level"]]
         return args
 
     def run_inproc(self, cli, args, prog, cwd=None, end=True):
